@@ -144,3 +144,33 @@ Example C14_aggregate_example :
     [CallA "c" [VNum (num_of_Z 1); VStr "x"]; CallF "i" (VArr [VNum (num_of_Z 1); VStr "x"])]%string /\
   agg_calls (fun _ v => Some v) (fun _ l => Some (VArr l)) (RPlain (SDot [98])) [] [99] [[105]] doc = [].
 Proof. cbv zeta. repeat split; vm_compute; reflexivity. Qed.
+
+(* The same for paths whose steps may be FILTERS (FiltFun.v): `$` steps-and-filters `.f()` `.g()` … — any step of FiltChain
+   (existence, negation, comparisons, queries in disjunctive form with or without blanks, parenthesised sub-queries, `..`
+   before a filter) — parses and returns g(f(value)) for each value the steps and filters reach (nav_allf, defined on the
+   document alone), in the order they reach them, dropping a value on which a function fails, failing when none is left.
+   (The filters here hold no function calls, so the user functions called are exactly f, g, … on those values.) *)
+From JP Require Import FiltChain FiltChainAddr FiltFun.
+Theorem C14_functions_after_filters_from_text : forall cfg parse_float regex_ok ffun afun regex_match,
+  (forall f v w, small v -> ffun f v = Some w -> small w) ->
+  (forall f l w, Forall small l -> afun f l = Some w -> small w) ->
+  forall x r f fs doc st, forallb fstep_ok (x :: r) = true -> forallb (fstep_okp parse_float regex_ok) (x :: r) = true ->
+  forallb fname_ok (f :: fs) = true -> forallb (fun_known cfg) (f :: fs) = true -> small doc -> ok st ->
+  exists t, parse_with cfg parse_float regex_ok jsonpath_grammar (fchain_fun_path (x :: r) (f :: fs)) = ParseOk t /\
+            match funs_all cfg ffun (f :: fs) (nav_allf parse_float regex_match doc (x :: r) ([], doc)) with
+            | [] => exists e, fst (eval_run ffun afun regex_match t doc st) = OErr e
+            | l => fst (eval_run ffun afun regex_match t doc st) = OOk l
+            end.
+Proof. exact fchain_fun_retrieval. Qed.
+Print Assumptions C14_functions_after_filters_from_text.
+
+(* `$.a[?(@.k)].v.id()` : the function applied to the `v` of the members that have a `k` *)
+Example C14_after_filters_example :
+  let doc := VObj [("a", VArr [VObj [("k", VNull); ("v", VNum (num_of_Z 1))]; VObj [("v", VNum (num_of_Z 2))]; VObj [("k", VNull); ("v", VNum (num_of_Z 3))]])]%string in
+  let ffun := fun (f : string) (v : value) => if String.eqb f "id" then Some v else None in
+  let cfg := {| cfg_filters := ["id"%string]; cfg_aggs := []; cfg_accessor := false |} in
+  let path := [FS (RPlain (SDot [97%N])); FE [RPlain (SDot [107%N])]; FS (RPlain (SDot [118%N]))] in
+  text_of (fchain_fun_path path [[105; 100]%N]) = "$.a[?(@.k)].v.id()"%string /\
+  forallb fstep_ok path = true /\ forallb (fun_known cfg) [[105; 100]%N] = true /\
+  funs_all cfg ffun [[105; 100]%N] (nav_allf (fun _ => None) (fun _ _ => false) doc path ([], doc)) = [RVal (VNum (num_of_Z 1)); RVal (VNum (num_of_Z 3))].
+Proof. cbv zeta. do 3 (split; [vm_compute; reflexivity|]). vm_compute. reflexivity. Qed.
